@@ -88,7 +88,16 @@ func (i *interpreter) hdFromNative(k *hdkeychain.ExtendedKey) value {
 	set("childNum", uint32(raw[9])<<24|uint32(raw[10])<<16|uint32(raw[11])<<8|uint32(raw[12]))
 	set("chainCode", valuesOf(raw[13:45]))
 	if k.IsPrivate() {
-		set("key", valuesOf(raw[46:78]))
+		key := raw[46:78]
+		if k.IsAffectedByIssue172() {
+			// the library keeps a private key produced by DeriveNonStandard
+			// unpadded (big.Int.Bytes()); the serialisation above pads it.
+			// Restore the in-memory form, on which the legacy rule depends.
+			for len(key) > 0 && key[0] == 0 {
+				key = key[1:]
+			}
+		}
+		set("key", valuesOf(key))
 	} else {
 		set("key", valuesOf(raw[45:78]))
 	}
